@@ -230,6 +230,7 @@ def rich_entries(rng, tier, allow_wo=False):
     rev = 0
     last_ts = 0
     skipped = 0
+    links = set(x.sid for x in list(g.sess) + list(g.dead) if getattr(x, "is_link", False))
     for e in g.entries:
         k = e["k"]
         if k not in "CDMXF":
@@ -254,7 +255,12 @@ def rich_entries(rng, tier, allow_wo=False):
         elif k == "D":
             j = {"T": "D", "S": e["sid"], "D": e["data"].hex()}
         elif k in "MX":
-            j = {"T": "M", "S": e["sid"], "C": e["cmid"], "Ra": e.get("ra", b"").hex(), "D": e["data"].hex()}
+            data = e["data"]
+            if e["sid"] in links and data.upper().startswith(b"NICK") and len(data.split()) < 6:
+                # services lines stay inside conforming_server_line (DESIGN A.4, IRCFORMAT E6): an introduction has at
+                # least 4 parameters.  A shorter NICK from an authenticated link panics cmdServerNick - C06's domain.
+                data = b"PING conforming"
+            j = {"T": "M", "S": e["sid"], "C": e["cmid"], "Ra": e.get("ra", b"").hex(), "D": data.hex()}
         else:
             toml = e["toml"]
             try:
@@ -978,6 +984,18 @@ def run(ck, replay):
                                           "obligation": "extraction of Fsm/FsmDriver.v"}, concrete=False)
         return
     parsed = [parse_line(l) for l in glines]
+    # logs whose PLAIN replay panics contain a message of death (C06/C07): no reference exists for them
+    outside = [i for i, l in enumerate(glines) if " | plainpanic:" in l]
+    if outside:
+        ck.notes["logs_outside_domain_plain_replay_panics"] = {
+            "count": len(outside),
+            "examples": [{"case_line": case_line(cases[i])[:4000], "driver": glines[i],
+                          "panic": bytes.fromhex(glines[i].rsplit(":", 1)[1]).decode("utf-8", "replace"),
+                          "entries_applied_before_the_panic": glines[i].split("plainpanic:")[1].split(":")[0]} for i in outside[:3]]}
+        keep = [i for i in range(len(cases)) if i not in set(outside)]
+        cases = [cases[i] for i in keep]
+        glines = [glines[i] for i in keep]
+        parsed = [parsed[i] for i in keep]
 
     # ---- monitor (implementation only)
     monfail = {}
